@@ -2,10 +2,20 @@
 
 One part.  A case is {kind, shape, data, dtype, layout, aff, code}:
   vox_array = np.array(data, dtype).reshape(shape) (laid out per `layout`), affine = np.array(aff), voxel_order = code.
-Valid stream: 48 codes (random letter case) x {48 axis-aligned, oblique} column-orthogonal affines with integer/dyadic
-entries (every float operation of the implementation is exact) x 3-5 D shapes with sizes 1..4, unique voxel values.
+Valid stream: ALL 48 codes x ALL 48 axis-aligned orientations (every tier), plus codes (random ASCII letter case) x oblique
+column-orthogonal affines with integer/dyadic entries (every float operation of the implementation is exact) x 3-5 D
+shapes with extents 1..33, unique voxel values.
 Error stream: all strings of length 0-4 over LRAPSIlrapsi (quick: length <= 2 + a sample), junk characters, arrays
-under 3-D, non-4x4 affines, an affine with a zero column.
+under 3-D, non-4x4 affines.
+
+What is judged is what the property text states and nothing else (audit 2):
+  * the code alphabet is the six letters l r a p s i in either ASCII case.  Non-ASCII characters that some Unicode case
+    mapping sends into the alphabet (U+017F, U+0131, U+00DF ...) are neither generated nor judged;
+  * the fourth return value (ornt_trans) and the dtype of the output are not mentioned by the property: not observed;
+  * "closest anatomical directions of the output axes" is computed by the oracle itself, exactly, from the generator's
+    affine and the returned transform (never through nibabel's io_orientation, which is what the code under test uses);
+    affines are generated only where every reasonable reading of "closest" agrees (see `closest_axes`);
+  * a 4x4 affine with a zero column is not generated: the property is silent about it.
 """
 import os, itertools, math
 from fractions import Fraction
@@ -16,30 +26,34 @@ COQ_PROPS = "Props/C17.v"
 COQ_EXTRA_TARGETS = ["Orient/Corr.vo"]      # the correspondence glue is not a dependency of the theorems
 THEOREMS = ["C17_data", "C17_affine", "C17_codes", "C17_axis_aligned", "C17_errors"]
 ALLOWED_AXIOMS = []
-RULE = ("valid: requested code (48, random letter case, incl. the non-ASCII characters that str.upper maps into LRAPSI) x input affine "
-        "P*R*diag(zooms)+translation with P one of the 48 signed permutations, R a product of <= 2 rational (Pythagorean) rotations, "
-        "zooms = common denominator x power of two (all entries integers/dyadic) x 3-5 D shape with sizes 1..4, unique voxel values, "
-        "several dtypes and memory layouts; error: strings of length 0-4 over LRAPSIlrapsi, junk, <3-D arrays, non-4x4 affines. "
-        "non-trivial = the transform is not the identity, or an error branch is taken")
+RULE = ("valid: all 48 codes x all 48 signed-permutation orientations (2304 pairs, every tier) + requested code (48, random ASCII letter case) "
+        "x input affine P*R*diag(zooms)+translation with P one of the 48 signed permutations, R a product of <= 2 rational (Pythagorean) "
+        "rotations, zooms = common denominator x power of two (all entries integers/dyadic) x 3-5 D shape with extents 1..33, unique voxel "
+        "values, several dtypes and memory layouts; error: strings of length 0-4 over LRAPSIlrapsi, junk, <3-D arrays, non-4x4 affines. "
+        "non-trivial = the returned transform is not the identity, or an error raised after the length test of the code "
+        "(a wrong letter / repeated axis / bad array / bad affine)")
 TRUSTED_BASE = [
     "Orient/Model.v is a hand transliteration of dcmstack.reorder_voxels / ornt_transform / axcodes2ornt and of nibabel 5.4.2 "
     "io_orientation / apply_orientation / inv_ornt_aff / ornt2axcodes (tied by this correspondence)",
     "numpy flip/transpose views are modelled as index maps (tabulate); numpy itself is not modelled",
     "io_orientation: the SVD/polar-factor step is replaced by R := column-normalised matrix (exact for mutually orthogonal columns); "
     "comparisons are made on squares in Q",
-    "str.upper is modelled exactly only on the characters whose upper-casing lies inside LRAPSI (a-z, U+00DF, U+0131, U+017F; "
-    "the harness re-checks this table against the running CPython over all code points)",
+    "str.upper is modelled on a-z and on U+00DF, U+0131, U+017F; the correspondence only uses codes made of ASCII characters and of "
+    "non-ASCII characters that no case mapping sends into LRAPSI (where any reading of 'case-insensitively' gives the same answer)",
 ]
 ASSUMPTIONS = [
     "well-formed arrays: len(data) = prod(shape) (hypothesis wf_arr of C17_data)",
     "correspondence domain of io_orientation: the 3x3 part of the affine has mutually orthogonal columns (rotation x zooms x signed "
     "permutation, or a zero column) and no comparison made by the greedy argmax is within floating-point noise of a tie; shear is outside",
-    "C17_codes is stated for `unambiguous` affines (each column has a strictly dominant row, rows distinct); for other affines only "
-    "C17_data / C17_affine / C17_errors apply",
+    "C17_codes is stated for `unambiguous` affines (each column has a strictly dominant row, rows distinct). The harness additionally "
+    "judges the orientation of oblique affines whose dominant rows collide, when the greedy strongest-first assignment and the "
+    "assignment maximising the sum of |cosines| agree with a margin (otherwise 'closest' is ambiguous and the affine is not generated)",
+    "the code alphabet is l r a p s i in either ASCII case; codes containing a non-ASCII character that a Unicode case mapping sends "
+    "into the alphabet are outside the judged domain; ornt_trans (4th return value) and the output dtype are not part of the property",
     "affine entries and voxel sizes are integers or dyadic rationals of moderate size, so numpy's float arithmetic is exact",
     "inputs-not-modified and view/aliasing behaviour are observed by the harness only (structural in the functional model)",
     "a valid code on a >=3-D array with a 4x4 affine can still raise ValueError when the affine has no complete orientation "
-    "(zero column): the property is silent there, the model agrees with the code",
+    "(zero column): the property is silent there; such affines are not generated and not judged",
 ]
 
 NAME = "main"
@@ -53,7 +67,6 @@ IMPL_TIMEOUT = 20
 LETTERS = "LRAPSI"
 AXIS = {'L': 0, 'R': 0, 'A': 1, 'P': 1, 'S': 2, 'I': 2}
 CODES48 = [''.join(t) for t in itertools.product(LETTERS, repeat=3) if sorted(AXIS[c] for c in t) == [0, 1, 2]]
-LOWER_ALT = {'L': ['l'], 'R': ['r'], 'A': ['a'], 'P': ['p'], 'S': ['s', 'ſ'], 'I': ['i', 'ı']}
 PERMS = list(itertools.permutations(range(3)))
 SIGNS = list(itertools.product([1, -1], repeat=3))
 PYTH = [(3, 4, 5), (4, 3, 5), (5, 12, 13), (12, 5, 13), (40, 9, 41), (24, 7, 25), (60, 11, 61), (21, 20, 29), (20, 21, 29),
@@ -64,9 +77,26 @@ LAYOUTS = ['C', 'F', 'neg', 'sub']
 # -------------------------------------------------------------------------------------------- exact helpers
 
 
-def code_valid(code):
-    u = code.upper()
+def ascii_upper(code):
+    """case folding of the code alphabet: ASCII only (the property's alphabet is l r a p s i in either case)"""
+    return ''.join(chr(ord(c) - 32) if 'a' <= c <= 'z' else c for c in code)
+
+
+def _maps_into_alphabet(c):
+    return any(m and all(x in 'LRAPSIlrapsi' for x in m) for m in (c.upper(), c.lower(), c.casefold()))
+
+
+def code_status(code):
+    """True = valid, False = invalid, None = the property is silent (a non-ASCII character that some case mapping
+    sends into the alphabet: 'case-insensitively' can be read either way)"""
+    if any(ord(c) > 127 and _maps_into_alphabet(c) for c in code):
+        return None
+    u = ascii_upper(code)
     return len(u) == 3 and all(c in AXIS for c in u) and sorted(AXIS[c] for c in u) == [0, 1, 2]
+
+
+def code_valid(code):
+    return code_status(code) is True
 
 
 def fr(x):
@@ -136,20 +166,53 @@ def greedy_robust(a3, margin=Fraction(1, 10 ** 6)):
     return out
 
 
+def best_assignment(a3, margin=1e-6):
+    """rows (per column) of the signed permutation closest to the column-normalised matrix: maximises the sum of
+    |cosines|; None when the runner-up is within `margin`"""
+    n = [math.sqrt(float(sum(a3[i][j] ** 2 for i in range(3)))) for j in range(3)]
+    if any(x == 0 for x in n):
+        return None
+    cos = [[abs(float(a3[i][j])) / n[j] for j in range(3)] for i in range(3)]
+    scored = sorted(((sum(cos[p[j]][j] for j in range(3)), p) for p in itertools.permutations(range(3))), reverse=True)
+    if scored[0][0] - scored[1][0] <= margin:
+        return None
+    return list(scored[0][1])
+
+
+POS_LETTER, NEG_LETTER = 'RAS', 'LPI'
+
+
+def closest_axes(a3):
+    """The closest anatomical direction of every voxel axis, as a 3-letter string, computed exactly from the 3x3 part;
+    None when 'closest' is ambiguous.  Defined when each column has a strictly dominant row and the rows differ, or
+    else when the strongest-first greedy assignment and the best global assignment agree (both with a margin)."""
+    rows = dominant_rows(a3)
+    if rows is None or len(set(rows)) != 3:
+        g = greedy_robust(a3)
+        if g is None or best_assignment(a3) != g:
+            return None
+        rows = g
+    return ''.join((POS_LETTER if a3[rows[j]][j] > 0 else NEG_LETTER)[rows[j]] for j in range(3))
+
+
 def in_model_domain(a3):
-    return is_unambiguous(a3) or greedy_robust(a3) is not None
+    return closest_axes(a3) is not None
 
 
 # ------------------------------------------------------------------------------------------------ generators
 
 def _shape(rng, tier, small=False):
+    if small:                         # the exhaustive code x orientation table: small anisotropic volumes
+        sh = list(rng.choice([(1, 2, 3), (2, 3, 4), (2, 2, 3), (1, 1, 2), (3, 5, 2), (2, 3, 1)]))
+        rng.shuffle(sh)
+        return sh + ([2] if rng.random() < 0.15 else [])
     nd = rng.choice([3, 3, 3, 4, 4, 5])
     while True:
-        sh = [rng.choice([1, 2, 2, 3, 3, 4]) for _ in range(nd)]
-        if small:
-            sh = [min(x, 3) for x in sh]
+        sh = [rng.choice([1, 2, 2, 3, 3, 4, 5, 6, 7, 9]) for _ in range(nd)]
+        if rng.random() < 0.25:       # one long axis
+            sh[rng.randrange(nd)] = rng.choice([8, 11, 16, 17, 32, 33])
         n = math.prod(sh)
-        if n <= (96 if small else 400):
+        if n <= 640:
             return sh
 
 
@@ -169,7 +232,7 @@ def _case_letters(rng, code):
         return code
     if r < 0.6:
         return code.lower()
-    return ''.join(rng.choice(LOWER_ALT[c] + [c, c.lower()]) if rng.random() < 0.6 else c for c in code)
+    return ''.join(c.lower() if rng.random() < 0.5 else c for c in code)
 
 
 def _affine(rng, perm, signs, nrot):
@@ -200,16 +263,18 @@ def _affine(rng, perm, signs, nrot):
     return aff, kind
 
 
-def _valid_case(rng, tier, code, perm, signs, nrot):
+def _valid_case(rng, tier, code, perm, signs, nrot, small=False):
     dtype = rng.choice(DTYPES)
     while True:
-        sh = _shape(rng, tier)
+        sh = _shape(rng, tier, small)
         try:
             data = _data(rng, math.prod(sh), dtype)
             break
         except ValueError:
             continue
     aff, kind = _affine(rng, perm, signs, nrot)
+    if small:
+        kind = 'pair-table'
     return {"kind": kind, "shape": sh, "data": data, "dtype": dtype, "layout": rng.choice(LAYOUTS),
             "aff": aff, "code": _case_letters(rng, code)}
 
@@ -226,17 +291,16 @@ def gen_cases(rng, tier):
     cases = []
     orients = [(p, s) for p in PERMS for s in SIGNS]          # the 48 axis-aligned orientations
     # --- valid stream
-    if tier == 'thorough':
-        pairs = [(c, o) for c in CODES48 for o in orients]
-        n_obl = 3000
-    else:
-        pairs = []
-        os_ = orients[:]
-        rng.shuffle(os_)
-        for i, c in enumerate(CODES48):                         # every code and every orientation at least 5 times
-            for k in range(5):
-                pairs.append((c, os_[(i * 5 + k * 11) % 48]))
-        n_obl = 420
+    for c in CODES48:                                           # all 2304 code x orientation pairs, every tier
+        for (p, s) in orients:
+            cases.append(_valid_case(rng, tier, c, p, s, 0, small=True))
+    pairs = []
+    os_ = orients[:]
+    rng.shuffle(os_)
+    for i, c in enumerate(CODES48):                             # the same on larger anisotropic 3-5 D volumes
+        for k in range(5 if tier != 'thorough' else 48):
+            pairs.append((c, os_[(i * 5 + k * 11) % 48]))
+    n_obl = 420 if tier != 'thorough' else 3000
     for c, (p, s) in pairs:
         cases.append(_valid_case(rng, tier, c, p, s, 0))
     for _ in range(n_obl):
@@ -254,9 +318,9 @@ def gen_cases(rng, tier):
         c = _err_base(rng)
         c.update(kind='string-%d' % len(s), code=s)
         cases.append(c)
-    junk = ["RAX", "R A", " RAS", "RAS ", "RÄS", "12S", "ras\n", "ßa", "ßß", "Lß", "ıſl", "raſ", "LPı",
-            "ＲＡＳ", "RÅS", "RA\u0000", "ﬁﬂ", "ŉL", "ǰLA", "lpi", "xyz", "r,a,s", "RASRAS", "rrr", "SSS", "LRA", "apa",
-            "KAS", "RåS", "\U0001d411AS"]
+    junk = ["RAX", "R A", " RAS", "RAS ", "R\u00c4S", "12S", "ras\n", "RA\u030aS", "RA\u0000", "lpi", "xyz", "r,a,s", "RASRAS", "rrr",
+            "SSS", "LRA", "apa", "KAS", "R\u00e5S", "R\u00e9S", "RA5", "ra-", "\tAS", "LP\u042f", "\u65e5AS", "R_S", "sal", "IPL", "LAZ", "raS"]
+    assert all(code_status(j) is not None for j in junk)          # no character whose case mapping is debatable
     for s in junk:
         c = _err_base(rng)
         c.update(kind='junk', code=s)
@@ -273,35 +337,10 @@ def gen_cases(rng, tier):
         c["aff"] = [[float((i == j) * 2 + (j == cc - 1) * i) for j in range(cc)] for i in range(r)]
         c.update(kind='bad-affine', code=_case_letters(rng, rng.choice(CODES48)) if rng.random() < 0.8 else rng.choice(["RAQ", "SS", "lrap"]))
         cases.append(c)
-    for k in range(6):                                           # zero column: no complete orientation
-        c = _err_base(rng)
-        j = k % 3
-        for i in range(3):
-            c["aff"][i][j] = 0.0
-        c.update(kind='degenerate-affine', code=rng.choice(CODES48))
-        cases.append(c)
     return cases
 
 
 # --------------------------------------------------------------------------------------------- implementation
-
-_UPPER_TABLE_OK = None
-
-
-def _upper_table_ok():
-    """the model's str.upper table: exactly these characters upper-case into LRAPSI"""
-    global _UPPER_TABLE_OK
-    if _UPPER_TABLE_OK is None:
-        want = {ord(c): c.upper() for c in 'lrapsiLRAPSI'}
-        want.update({0xdf: 'SS', 0x131: 'I', 0x17f: 'S'})
-        got = {}
-        for cp in range(0x110000):
-            u = chr(cp).upper()
-            if all(x in 'LRAPSI' for x in u):
-                got[cp] = u
-        _UPPER_TABLE_OK = (got == want)
-    return _UPPER_TABLE_OK
-
 
 def _build(case):
     import numpy as np
@@ -331,30 +370,28 @@ def _frac(x):
 def run_impl(case):
     import numpy as np
     import dcmstack
-    if not _upper_table_ok():
-        return {"crash": "UpperTable", "msg": "str.upper maps a character into LRAPSI that the model's table does not list"}
     arr, aff = _build(case)
     arr0, aff0 = arr.copy(), aff.copy()
     try:
-        out, oaff, trans, ornt = dcmstack.reorder_voxels(arr, aff, case["code"])
-    except ValueError:
+        res = dcmstack.reorder_voxels(arr, aff, case["code"])
+        out, oaff, trans = res[0], res[1], res[2]          # res[3] (ornt_trans) is not part of the property
+    except ValueError:                                     # the class the property names (subclasses included)
         unchanged = bool(arr.shape == arr0.shape and (arr == arr0).all() and aff.shape == aff0.shape and (aff == aff0).all())
         return {"err": "EValue", "unchanged": unchanged}
     out = np.asarray(out)
-    oaff, trans, ornt = np.asarray(oaff, dtype=np.float64), np.asarray(trans, dtype=np.float64), np.asarray(ornt, dtype=np.float64)
-    if not (np.isfinite(oaff).all() and np.isfinite(trans).all() and np.isfinite(ornt).all()):
-        return {"crash": "NonFinite", "msg": "non-finite value in the returned affine / transform / orientation"}
-    if ornt.ndim != 2 or ornt.shape[1] != 2 or not (ornt == np.round(ornt)).all():
-        return {"crash": "BadOrnt", "msg": "orientation transform is not an (n,2) integer-valued array: %r" % (ornt.tolist(),)}
+    oaff, trans = np.asarray(oaff, dtype=np.float64), np.asarray(trans, dtype=np.float64)
     flat = out.ravel()
-    if not (flat == np.round(flat)).all():
-        return {"crash": "NonIntegerData", "msg": "output voxel values are not the input's integers"}
+    if not (np.isfinite(oaff).all() and np.isfinite(trans).all()) or not (np.isfinite(flat.astype(np.float64)).all()
+                                                                           and (flat == np.round(flat)).all()):
+        # cannot be written as exact rationals / integers: reported by the oracle as a wrong result, not as a crash
+        return {"bad": "non-finite entry in the returned affine / transform, or a non-integer output voxel",
+                "shape": [int(x) for x in out.shape], "unchanged": True}
     unchanged = bool(arr.shape == arr0.shape and arr.dtype == arr0.dtype and (arr == arr0).all()
                      and aff.shape == aff0.shape and (aff == aff0).all())
-    return {"shape": [int(x) for x in out.shape], "data": [int(x) for x in flat], "dtype_same": bool(out.dtype == arr0.dtype),
+    return {"shape": [int(x) for x in out.shape], "data": [int(x) for x in flat],
             "aff": [[_frac(x) for x in row] for row in oaff.tolist()] if oaff.ndim == 2 else None,
             "trans": [[_frac(x) for x in row] for row in trans.tolist()] if trans.ndim == 2 else None,
-            "ornt": [[int(r[0]), int(r[1])] for r in ornt.tolist()], "unchanged": unchanged}
+            "unchanged": unchanged}
 
 
 # ------------------------------------------------------------------------------------------------- Coq literal
@@ -378,26 +415,29 @@ def _cmat_q(m):
 def coq_case(case, obs):
     if 'err' in obs:
         o = 'ObsErr %s' % obs['err'] if obs.get('unchanged', True) else 'ObsErr ECrash'
-    elif 'crash' in obs or obs.get('aff') is None or obs.get('trans') is None:
+    elif 'crash' in obs or 'bad' in obs or obs.get('aff') is None or obs.get('trans') is None:
         o = 'ObsErr ECrash'
     else:
-        o = 'ObsOk %s %s %s %s %s %s' % (_cnats(obs['shape']), _czs(obs['data']), _cmat_q(obs['aff']), _cmat_q(obs['trans']),
-                                        clist('(%d, %d)%%Z' % (r[0], r[1]) for r in obs['ornt']) if obs['ornt'] else '(@nil (Z * Z))',
-                                        cbool(obs['unchanged']))
+        o = 'ObsOk %s %s %s %s %s' % (_cnats(obs['shape']), _czs(obs['data']), _cmat_q(obs['aff']), _cmat_q(obs['trans']),
+                                     cbool(obs['unchanged']))
     return 'Corr.Build_case %s %s %s %s (%s)' % (_cnats(case['shape']), _czs(case['data']), _cmat_f(case['aff']), cstr(case['code']), o)
 
 
 # ------------------------------------------------------------------------------------------------------ oracle
+# Independent of the Coq model and of nibabel: everything is recomputed, exactly, from the generator's case.
 
 def expected_error(case):
     """True: the property demands ValueError; False: it demands success; None: the property is silent"""
-    if not code_valid(case['code']):
+    st = code_status(case['code'])
+    if st is False:
         return True
     if len(case['shape']) < 3:
         return True
     aff = case['aff']
     if len(aff) != 4 or any(len(r) != 4 for r in aff):
         return True
+    if st is None:
+        return None
     a3 = [[Fraction(aff[i][j]) for j in range(3)] for i in range(3)]
     if any(all(a3[i][j] == 0 for i in range(3)) for j in range(3)):
         return None
@@ -405,86 +445,96 @@ def expected_error(case):
 
 
 def oracle(case, obs):
+    """message '[clause] text' when the property fails on this case, else None"""
     import numpy as np
     exp = expected_error(case)
     if 'crash' in obs:
-        return 'raised %s instead of %s: %s' % (obs['crash'], 'ValueError' if exp else 'returning a result', str(obs.get('msg'))[:200])
+        return '[exception] raised %s instead of %s: %s' % (
+            obs['crash'], 'ValueError' if exp else 'returning a result', str(obs.get('msg'))[:200])
+    msgs = []
     if obs.get('unchanged') is False:
-        return 'the input array or affine was modified by the call'
+        msgs.append('[inputs] the input array or affine was modified by the call')
     if 'err' in obs:
         if exp is False:
-            return 'ValueError raised for a valid request (code %r, shape %r)' % (case['code'], case['shape'])
-        return None
+            msgs.append('[rejected] ValueError raised for a valid request (code %r, %d-D array, 4x4 affine)' % (case['code'], len(case['shape'])))
+        return msgs[0] if msgs else None
     if exp is True:
-        return 'no ValueError for an invalid request (code %r, shape %r, affine %dx%s)' % (
-            case['code'], case['shape'], len(case['aff']), len(case['aff'][0]) if case['aff'] else 0)
-    # ---- success: same image
-    sh_in, sh_out = tuple(case['shape']), tuple(obs['shape'])
+        msgs.append('[accepted] no ValueError for an invalid request (code %r, %d-D array, affine %dx%s)' % (
+            case['code'], len(case['shape']), len(case['aff']), len(case['aff'][0]) if case['aff'] else 0))
+        return msgs[0]
+    if exp is None:
+        return msgs[0] if msgs else None
+    # ---- success on a valid request: same image
+    if 'bad' in obs:
+        return '[data] ' + obs['bad']
     if obs.get('aff') is None or obs.get('trans') is None:
-        return 'returned affine / transform is not a matrix'
+        return '[affine] returned affine / transform is not a matrix'
+    sh_in, sh_out = tuple(case['shape']), tuple(obs['shape'])
     T = [[Fraction(n, d) for n, d in row] for row in obs['trans']]
     A2 = [[Fraction(n, d) for n, d in row] for row in obs['aff']]
     A = mat_fr(case['aff'])
     if len(T) != 4 or any(len(r) != 4 for r in T):
-        return 'the returned transform is not 4x4'
-    if mmul(A, T) != A2:
-        return 'output affine differs from input affine . transform'
+        return '[transform] the returned transform is not 4x4'
+    AT = mmul(A, T)
+    if AT != A2:
+        msgs.append('[affine] output affine differs from input affine . returned transform')
     if any(x.denominator != 1 for row in T for x in row) or T[3] != [0, 0, 0, 1]:
-        return 'the returned transform does not map voxel indices to voxel indices'
-    if len(sh_out) != len(sh_in) or sh_out[3:] != sh_in[3:] or math.prod(sh_out) != math.prod(sh_in):
-        return 'output shape %r is not a reordering of the first three axes of %r' % (sh_out, sh_in)
-    n = math.prod(sh_out)
-    if len(obs['data']) != n:
-        return 'output data size differs from its shape'
-    if n:
+        msgs.append('[transform] the returned transform does not map voxel indices to voxel indices')
+    elif len(sh_out) != len(sh_in) or sh_out[3:] != sh_in[3:] or math.prod(sh_out) != math.prod(sh_in):
+        msgs.append('[shape] output shape %r is not a reordering of the first three axes of %r (extra dimensions untouched)' % (sh_out, sh_in))
+    elif len(obs['data']) != math.prod(sh_out):
+        msgs.append('[shape] output data size differs from its shape')
+    elif math.prod(sh_out):
+        n = math.prod(sh_out)
         Tn = np.array([[int(x) for x in row] for row in T], dtype=np.int64)
         idx = np.indices(sh_out).reshape(len(sh_out), -1)
         src3 = Tn[:3, :3] @ idx[:3] + Tn[:3, 3:4]
         src = np.concatenate([src3, idx[3:]], axis=0)
         lim = np.array(sh_in, dtype=np.int64).reshape(-1, 1)
         if (src < 0).any() or (src >= lim).any():
-            return 'the transform maps an output index outside the input array'
-        flat_src = np.ravel_multi_index(tuple(src), sh_in)
-        if len(np.unique(flat_src)) != n:
-            return 'the transform is not a bijection of the index spaces'
-        din = np.array(case['data'], dtype=np.int64)
-        dout = np.array(obs['data'], dtype=np.int64)
-        if not (dout == din[flat_src]).all():
-            k = int(np.nonzero(dout != din[flat_src])[0][0])
-            return 'output voxel %r = %d but the transform maps it to input voxel %r = %d' % (
-                tuple(int(x) for x in idx[:, k]), int(dout[k]), tuple(int(x) for x in src[:, k]), int(din[flat_src[k]]))
-    # ---- orientation codes (unambiguous inputs only)
-    a3 = [[A[i][j] for j in range(3)] for i in range(3)]
-    if is_unambiguous(a3):
-        import nibabel as nb
-        got = nb.aff2axcodes(np.array([[float(x) for x in row] for row in A2]))
-        want = tuple(case['code'].upper())
-        if tuple(got) != want:
-            return 'output axes are oriented %s, requested %s' % (''.join(str(g) for g in got), ''.join(want))
-    return None
+            msgs.append('[data] the returned transform maps an output index outside the input array')
+        else:
+            flat_src = np.ravel_multi_index(tuple(src), sh_in)
+            din = np.array(case['data'], dtype=np.int64)
+            dout = np.array(obs['data'], dtype=np.int64)
+            if len(np.unique(flat_src)) != n:
+                msgs.append('[data] the returned transform is not a bijection of the index spaces')
+            elif not (dout == din[flat_src]).all():
+                k = int(np.nonzero(dout != din[flat_src])[0][0])
+                msgs.append('[data] output voxel %r = %d but the transform maps it to input voxel %r = %d' % (
+                    tuple(int(x) for x in idx[:, k]), int(dout[k]), tuple(int(x) for x in src[:, k]), int(din[flat_src[k]])))
+    # ---- orientation: closest anatomical direction of every output axis, from the generator's affine and the
+    #      returned transform, in exact arithmetic (independent of nibabel's io_orientation)
+    spelled = closest_axes([[AT[i][j] for j in range(3)] for i in range(3)])
+    want = ascii_upper(case['code'])
+    if spelled is not None and spelled != want:
+        msgs.append('[codes] the output axes point to %s, requested %s' % (spelled, want))
+    return msgs[0] if msgs else None
 
 
 def signature(case, obs, msg):
-    for key, sig in [('instead of', 'wrong-exception'), ('modified', 'inputs-modified'), ('ValueError raised', 'valid-rejected'),
-                     ('no ValueError', 'invalid-accepted'), ('output affine differs', 'affine'), ('oriented', 'codes'),
-                     ('output voxel', 'data'), ('bijection', 'data'), ('outside the input', 'data'), ('shape', 'shape')]:
-        if key in msg:
-            return sig
+    """the clause of the property that failed (the tag the oracle itself put in front of its message)"""
+    if msg.startswith('[') and ']' in msg:
+        return msg[1:msg.index(']')]
     return 'other'
 
 
 def nontrivial(case, obs):
-    if 'err' in obs or 'crash' in obs:
+    if 'crash' in obs:
         return True
-    return obs.get('ornt') != [[0, 1], [1, 1], [2, 1]]
+    if 'err' in obs:                       # an error raised after the length test of the code: wrong letter, repeated
+        return len(ascii_upper(case['code'])) == 3      # axis, array under 3-D, affine not 4x4
+    ident = [[[int(i == j), 1] for j in range(4)] for i in range(4)]
+    return obs.get('trans') != ident
 
 
 def shrink(case):
+    """smaller cases inside the same domain (the driver keeps a candidate only when it fails with the same signature)"""
     sh = case['shape']
     for i in range(len(sh)):
         if sh[i] > 1:
             c = dict(case)
-            c['shape'] = sh[:i] + [sh[i] - 1] + sh[i + 1:]
+            c['shape'] = sh[:i] + [max(1, sh[i] // 2)] + sh[i + 1:]
             c['data'] = list(range(1, math.prod(c['shape']) + 1))
             c['dtype'], c['layout'] = 'int64', 'C'
             yield c
@@ -504,7 +554,7 @@ def shrink(case):
         c = dict(case)
         c['aff'] = [[aff[i][j] if j < 3 or i == 3 else 0.0 for j in range(4)] for i in range(4)]
         yield c
-    if case['code'] != case['code'].upper() and len(case['code'].upper()) == len(case['code']):
+    if case['code'] != ascii_upper(case['code']):
         c = dict(case)
-        c['code'] = case['code'].upper()
+        c['code'] = ascii_upper(case['code'])
         yield c
